@@ -90,8 +90,11 @@ pub fn gcd_internal<const N: usize, const EXT: bool>(
             if EXT {
                 // Extended gcd.
                 let e = Integer::extended_gcd(&x0, &y0);
-                let u: BInt<N> = BInt::from(e.x) * biga + BInt::from(e.y) * bigc;
-                let v: BInt<N> = BInt::from(e.x) * bigb + BInt::from(e.y) * bigd;
+                // The cofactors fit in N words but the two products may not:
+                // compute modulo 2^64N.
+                let (ex, ey): (BInt<N>, BInt<N>) = (BInt::from(e.x), BInt::from(e.y));
+                let u: BInt<N> = ex.wrapping_mul(biga).wrapping_add(ey.wrapping_mul(bigc));
+                let v: BInt<N> = ex.wrapping_mul(bigb).wrapping_add(ey.wrapping_mul(bigd));
                 return (BUint::from_digit(e.gcd as u64), u, v);
             } else {
                 let d = Integer::gcd(&x0, &y0) as u64;
